@@ -42,7 +42,10 @@ META = {
     ],
     "assumptions": ["registries enumerated over a pool (<= 2 entries per axes set, 1-3 axes); array positions and request orders enumerated; values symbolic",
                     "among several fully registered partitions with equally large first block any one is admissible (determinism is C12)"],
-    "bounded_standins": ["average of a constant field equals the constant: cell counts n in {2,3}, all positive weights (explicit finite sums)"],
+    "lemmas": ["average(constant)=constant for ANY number of cells uses two finite-sum facts as lemma schemata: linearity in a factor that does not depend on the "
+               "summation index (normal form of vp/mxr.PrefixSum) and positivity of a non-empty sum of positive weights; both, and their combination "
+               "weighted_mean_const, are proved in lean/SumFacts.lean (Lean 4 + Mathlib, run in the thorough tier)"],
+    "bounded_standins": ["cross-check only: average of a constant field with explicit finite sums, n in {2,3} (the unbounded proof is `average-constant`)"],
 }
 
 LAY = {"X": ("center", "left"), "Y": ("center", "left"), "Z": ("center", "outer")}
@@ -88,8 +91,10 @@ def structures(tier, seed):
                 {"XY": ["a_lc"], "Z": ["dz_c"]}, {"XYZ": ["vol"], "X": ["dx_c"]}):
         out.append({"part": "get", "sid": "get3;" + reg_sid({tuple(k): v for k, v in reg.items()}), "reg": reg, "arrays": ["ccc", "lcc"],
                     "requests": [["X", "Y", "Z"], ["Y", "X", "Z"]]})
-    for op in ("integrate", "integrate-order", "average", "derivative", "metric_weighted-diff", "metric_weighted-interp-multi", "average-constant-bounded"):
+    for op in ("integrate", "integrate-order", "average", "derivative", "metric_weighted-diff", "metric_weighted-interp-multi", "average-constant", "average-constant-bounded"):
         out.append({"part": "op", "op": op, "sid": f"op;{op}"})
+    if tier == "thorough":
+        out.append({"part": "lean", "sid": "lean;finite-sum-facts", "clause": "sum_const_mul,sum_pos_of_pos,weighted_mean_const"})
     out.append({"part": "get", "sid": "canary;spec-prefers-wrong-position", "reg": {"X": ["dx_c", "dx_l"]}, "arrays": ["lc"], "requests": [["X"]], "canary": True})
     return out
 
@@ -353,6 +358,28 @@ def run_op(s):
                     oblige(f"average(constant)==constant:n={n}:t={t}", out.elem({"t": z3.IntVal(t)}) == cst)
             covers["returned"] = 1
             return
+        if op == "average-constant":
+            # any number of cells: the sum-linearity normal form (lean: sum_const_mul) and the positivity of a non-empty sum of
+            # positive weights (lean: sum_pos_of_pos) are the two lemma schemata used; field constant along the averaged
+            # dimension(s), arbitrary along the others
+            symx.ctx().ghost["sum-linearity"] = True
+            layout, ns, dims, ds, g = build(w, reg)
+            K = z3.Function("K", z3.IntSort(), symx.Val)
+            for axes_, adims_, wname in ((["X"], ("t", "y_c", "x_c"), "dx_c"), (["X", "Y"], ("t", "y_c", "x_c"), "a_cc"), (["Y"], ("y_l", "t"), "dy_l")):
+                arr = MArr(adims_, {d: dims[d] for d in adims_}, lambda idx: K(idx["t"]), name="K")
+                out = g.average(arr, list(axes_))
+                oblige(f"average(constant):dims:{'+'.join(axes_)}", tuple(out.dims) == ("t",) or set(out.dims) == set(adims_) - {layout[a_]["center" if a_ != "Y" or wname != "dy_l" else "left"] for a_ in axes_},
+                       detail=str(out.dims))
+                # lemma instances: the total weight (every registered prefix sum over the metric alone, taken to the end) is positive
+                q = {d: z3.Int(f"q_{d}") for d in out.dims}
+                rng = z3.And(*[z3.And(q[d] >= 0, q[d] < zint(out.sizes[d])) for d in out.dims]) if out.dims else z3.BoolVal(True)
+                for (fn, term, a0, dim0, others0) in list(symx.ctx().ghost.get("prefix-registry", {}).values()):
+                    if "K" in str(term) or not all(d in q for d in others0):
+                        continue
+                    symx.assume(fn(*[q[d] for d in others0], zint(a0.sizes[dim0]) - 1) > 0)
+                oblige(f"average(constant)==constant:any-n:{'+'.join(axes_)}", z3.Implies(rng, out.elem(q) == K(q["t"])))
+            covers["returned"] = 1
+            return
         layout, ns, dims, ds, g = build(w, reg)
         c = w.array("C", ["t", "y_c", "x_c"], ds, with_coords=True)
         X, Y = layout["X"], layout["Y"]
@@ -432,6 +459,9 @@ def run_op(s):
 
 
 def run_structure(s):
+    if s["part"] == "lean":
+        from harness import C07
+        return C07.run_lean(s)
     return run_get(s) if s["part"] == "get" else run_op(s)
 
 
